@@ -14,8 +14,12 @@ from props.c01 import flat_name, inst_path
 # class -> (constructor, attribute names of the net arguments after r, then constant getters)
 BIN = {'And2': 'PAnd2', 'Or2': 'POr2', 'Sub': 'PSub', 'Mul': 'PMul', 'SignedMul': 'PSignedMul'}
 UN = {'Not': 'PNot', 'Buf': 'PBuf', 'ZeroExtend': 'PZeroExtend', 'SignExtend': 'PSignExtend'}
-COVERED = set(BIN) | set(UN) | {'AddCarryIn', 'ShiftLeftConstant', 'ShiftRightConstant', 'Mux2', 'Range', 'Bit', 'Constant',
-                                'ConcatenateMSBF', 'ConcatenateLSBF', 'Repeat'}
+# MACRO-LEAVES: inlined as one assign, structural in the simulator; the kernel leaf is C08's model of the sub-network (Model/StructLogic.v)
+MBIN = {'Xor2': 'PXor2', 'Nand2': 'PNand2', 'Nor2': 'PNor2', 'Equal': 'PEqual'}
+MNARY = {'And': 'PAnd', 'Or': 'POr', 'Nor': 'PNor'}
+MACRO = set(MBIN) | set(MNARY) | {'EqualConstant'}
+COVERED = set(BIN) | set(UN) | MACRO | {'AddCarryIn', 'ShiftLeftConstant', 'ShiftRightConstant', 'Mux2', 'Range', 'Bit', 'Constant',
+                                        'ConcatenateMSBF', 'ConcatenateLSBF', 'Repeat'}
 
 
 class NotCovered(Exception):
@@ -31,6 +35,9 @@ def prim_term(top, ch):
     n = lambda w: nid(top, ch.parent, w)
     if cls in BIN: return '%s %s %s %s' % (BIN[cls], n(ch.r), n(ch.a), n(ch.b))
     if cls in UN: return '%s %s %s' % (UN[cls], n(ch.r), n(ch.a))
+    if cls in MBIN: return '%s %s %s %s' % (MBIN[cls], n(ch.r), n(ch.a), n(ch.b))
+    if cls in MNARY: return '%s %s [%s]' % (MNARY[cls], n(ch.r), '; '.join(n(x) for x in ch.ins))
+    if cls == 'EqualConstant': return 'PEqualConst %s %s %s' % (n(ch.r), n(ch.a), zlit(ch.v))
     if cls == 'AddCarryIn': return 'PAddCI %s %s %s %s' % (n(ch.r), n(ch.a), n(ch.b), n(ch.ci))
     if cls == 'ShiftLeftConstant': return 'PShl %s %s %s' % (n(ch.r), n(ch.a), zlit(ch.getParameterValue('n')))
     if cls == 'ShiftRightConstant': return 'PShr %s %s %s' % (n(ch.r), n(ch.a), zlit(ch.getParameterValue('n')))
@@ -75,10 +82,31 @@ class Cover:
         leaves = list(sim.propagatables)
         drivers = list(sim.clockDrivers.items())
         clocked = [x for _, ds in drivers for x in ds.clockables]
-        if {id(x) for x in leaves} | {id(x) for x in clocked} != {id(x) for x in emitted}:
+        pos = {id(x): k for k, x in enumerate(leaves)}
+        # a macro block stands for all the simulator leaves below it; it is scheduled where its last leaf (the one driving r) is
+        def below(obj):
+            out = []
+            for c in obj.children.values():
+                out += below(c) if c.children else [c]
+            return out
+        items, covered_ids = [], set()
+        for ch in emitted:
+            cls = type(ch).__name__
+            if cls == 'Reg': covered_ids.add(id(ch)); continue
+            if ch.children:
+                sub = below(ch)
+                if any(id(x) not in pos for x in sub): raise NotCovered('macro block %s contains a non-combinational leaf' % cls)
+                covered_ids.update(id(x) for x in sub)
+                items.append((max(pos[id(x)] for x in sub), ch))
+            else:
+                if id(ch) not in pos: raise NotCovered('inlined leaf %s is not a propagatable' % cls)
+                covered_ids.add(id(ch)); items.append((pos[id(ch)], ch))
+        if {id(x) for x in leaves} | {id(x) for x in clocked} != covered_ids:
             raise NotCovered('simulator leaves and emitted instances differ')
         if any(type(x).__name__ != 'Reg' for x in clocked): raise NotCovered('clocked leaf other than Reg')
         if len(drivers) > 1 or any(drv.enable is not None for drv, _ in drivers): raise NotCovered('gated or multiple clock drivers')
+        items.sort(key=lambda t: t[0])
+        leaves = [ch for _, ch in items]
         self.hw, self.top, self.sim = hw, top, sim
         self.leaves, self.regs = leaves, clocked
         self.prims = '[' + ';\n    '.join(prim_term(top, x) for x in leaves) + ']'
